@@ -151,6 +151,14 @@ def gen_case(rng, tier):
             expr = 'amount * 2' if injected else bad
             r['lets'] = [['lv', expr]]
             r['match'] = rng.choice(['(%s) and (lv or not lv)', '%s', '(%s) and not lv', '(%s) or lv']) % r['match']
+            if rng.random() < 0.5:
+                # a sibling binding that evaluates fine and does not *use* the failing one (its text may well contain the
+                # name, in a string or as part of another word): "just that binding" is inapplicable, the sibling keeps
+                # its value, whichever way the rule reads it
+                sib = ['sib', rng.choice(['not contains("LV 99")', 'len("lv") == 2', 'amount == amount or "lv" == description',
+                                          'not startswith("lv")', 'amount != 0 or silver'])]
+                r['lets'] = [sib] + r['lets'] if rng.random() < 0.3 else r['lets'] + [sib]
+                r['match'] = rng.choice(['(%s) and sib', '(%s) and not sib', '(%s) or not sib']) % r['match']
         elif site == 'variable':
             expr = 'amount > 100' if injected else bad
             m['variables'] = [['is_large', expr]]
